@@ -83,6 +83,18 @@ func cases(run *vf.Run) ([]json.RawMessage, error) {
 		out = append(out, vf.Spec(spec{Seed: vf.SubSeed(run.Seed, "C05-compact-case", i), Cfg: cfg, Sched: Schedule{Rate: 1, Target: OpOpen, PageArea: true},
 			Demo: "compaction-source-download-faults", Variant: []string{"l1-l2", "l0-l1-after-meta-loss", "l2-l3"}[i%3]}))
 	}
+	nu := 3
+	if run.Tier == "thorough" {
+		nu = 30
+	}
+	for i := 0; i < nu; i++ {
+		rng := rand.New(rand.NewSource(vf.SubSeed(run.Seed, "C05-upload", i)))
+		cfg := hist.RandomConfig(rng)
+		cfg.PageSize = hist.PageSizes[(i*3+1)%len(hist.PageSizes)]
+		cfg.MaxSyncLTXFiles = 0
+		cfg.MinCheckpointPageN = 1000
+		out = append(out, vf.Spec(spec{Seed: vf.SubSeed(run.Seed, "C05-upload-case", i), Cfg: cfg, Sched: Schedule{Target: OpWrite}, Demo: "compaction-upload-fails"}))
+	}
 	for i := 0; i < n; i++ {
 		rng := rand.New(rand.NewSource(vf.SubSeed(run.Seed, "C05", i)))
 		cfg := hist.RandomConfig(rng)
@@ -315,6 +327,26 @@ func runCase(run *vf.Run, raw json.RawMessage, dir string) *vf.Result {
 	stepCheck := func(tag string) bool {
 		if len(e.ReplicaFiles()) == 0 {
 			return true
+		}
+		// a compaction level never gets a hole, whatever failed: the next compaction
+		// continues at or below the TXID after the level's real end. (Overlapping files are
+		// legitimate here: an upload that took effect but was reported as failed is written
+		// again over a longer range; restore plans cope with nested files.)
+		for level := 1; level <= 8; level++ {
+			files := oracle.ListLevel(e.RepPath, level)
+			maxSoFar := 0
+			for i, f := range files {
+				if i > 0 {
+					res.Evals++
+					if f.Min > maxSoFar+1 {
+						res.Violate(fp("level-has-a-hole"), "%s: level %d on the store has a hole: files reach TXID %d, the next one is %s [%s; %s]", tag, level, maxSoFar, f, s.Sched, s.Cfg)
+						return false
+					}
+				}
+				if f.Max > maxSoFar {
+					maxSoFar = f.Max
+				}
+			}
 		}
 		img, err := e.RestoreBytes(litestream.NewRestoreOptions())
 		res.Evals++
@@ -592,6 +624,70 @@ func runCase(run *vf.Run, raw json.RawMessage, dir string) *vf.Result {
 		}
 		ops = append(ops, "directed-"+s.Variant)
 		px.SetSchedule(s.Sched)
+	}
+	if s.Demo == "compaction-upload-fails" {
+		// level-1 (and level-2) uploads fail once in each of the three ways while the
+		// process keeps running; later compactions must continue where the level really
+		// ends (no hole), and everything stays restorable
+		px.Enable(false)
+		step := 0
+		next := func() { px.BeginStep(step, vf.SubSeed(s.Seed, "step", step)); step++ }
+		writeSync := func(n int) bool {
+			for j := 0; j < n; j++ {
+				next()
+				if _, err := e.AppWriteKind([]string{"ins-small", "ins-multi", "update", "ins-big"}[rng.Intn(4)]); err != nil {
+					res.HarnessErr = err.Error()
+					return false
+				}
+				if _, ok := syncAndWait(fmt.Sprintf("directed op%d SyncAndWait", step)); !ok {
+					return false
+				}
+				if !flush() {
+					return false
+				}
+			}
+			return true
+		}
+		kinds := []string{KindFailBefore, KindShortRead, KindFailAfter}
+		for r := 0; r < 4; r++ {
+			if !writeSync(2 + rng.Intn(3)) {
+				return res
+			}
+			lvl := 1
+			if r == 3 {
+				lvl = 2
+			}
+			kind := kinds[(r+int(s.Seed%3+3))%3]
+			px.Force(OpWrite, lvl, kind, int64(100+rng.Intn(400)))
+			next()
+			_, err := e.LS.Compact(ctx, lvl)
+			e.Logf("Compact(%d) with its upload failing (%s) err=%v", lvl, kind, err)
+			if err != nil {
+				res.Count("directed_compaction_upload_failed:"+kind, 1)
+			}
+			px.ClearForced()
+			if !flush() || !stepCheck(fmt.Sprintf("directed: after Compact(%d) whose upload failed (%s)", lvl, kind)) {
+				return res
+			}
+			if !writeSync(1 + rng.Intn(3)) {
+				return res
+			}
+			next()
+			_, err = e.LS.Compact(ctx, lvl)
+			e.Logf("Compact(%d) again err=%v", lvl, err)
+			if !flush() || !stepCheck(fmt.Sprintf("directed: Compact(%d) after the failed upload", lvl)) {
+				return res
+			}
+			if lvl == 1 && r == 2 {
+				next()
+				_, err = e.LS.Compact(ctx, 2)
+				e.Logf("Compact(2) err=%v", err)
+				if !flush() || !stepCheck("directed: Compact(2)") {
+					return res
+				}
+			}
+		}
+		ops = append(ops, "directed-compaction-upload-fails")
 	}
 	if s.Demo == "baseline-download-premature-eof" {
 		// three replicated transactions, restart without the local meta
